@@ -14,6 +14,7 @@ The loop callbacks of R are classified by what they are (the asyncio handle is i
 D is ticked exactly when R ran a `proc` callback.  The sequence of model-level events (`xevents`) is recorded from
 instrumentation points, not from the case, so that the Coq model is driven by what really happened."""
 import asyncio
+import json
 import warnings
 
 import kiwipy
@@ -202,11 +203,11 @@ def classify(h):
 class Side:
     """one process on its own loop and communicator"""
 
-    def __init__(self, case, klass, fails, xlog):
+    def __init__(self, case, klass, fails, xlog, comm_class=None):
         from plumpy import communications
         self.sc = sched.Sched()
         self.trace, self.actions = [], []
-        self.base = PosComm(fails, xlog)
+        self.base = (comm_class or PosComm)(fails, xlog)
         self.base.trace = self.trace
         self.recorded = []
         self.base.add_broadcast_subscriber(
@@ -370,6 +371,58 @@ def direct_reply(ret, actions):
 def norm_trace(trace):
     """the record of a control call: call and outcome (bookkeeping fields added by the shared harness are dropped)"""
     return [e[:3] if e[0] == 'ctl' else e for e in trace]
+
+
+class RpcRegistrationTimesOut(PosComm):
+    """the broker does not answer in time when the process registers as an RPC subscriber (a tolerated failure)"""
+
+    def add_rpc_subscriber(self, subscriber, identifier=None):
+        if identifier == PID:
+            raise kiwipy.TimeoutError('timed out (harness)')
+        return super().add_rpc_subscriber(subscriber, identifier)
+
+
+_PROBE = {}
+
+
+def registration_fault_probe(case):
+    """Implementation-only probe (no model term): after a time-out of the RPC registration the broadcast control path
+    still works — pause_all pauses a live process, kill_all kills it.  Cached per program."""
+    key = json.dumps([case.get('prog'), case.get('listeners')], sort_keys=True)
+    if key in _PROBE:
+        return _PROBE[key]
+    from plumpy import process_comms
+    side = None
+    out = {'ran': False}
+    try:
+        side = Side(dict(case, events=[]), fresh_class(), {}, [], comm_class=RpcRegistrationTimesOut)
+        if side.proc is not None:
+            def drain():
+                side.activate()
+                for _ in range(60):
+                    if not side.sc.tick():
+                        break
+                side.flush()
+            tctrl = process_comms.RemoteProcessThreadController(side.comm)
+            side.activate()
+            sub0 = side.subscribed()
+            side.sc.tick()
+            live0 = not side.proc.has_terminated()
+            tctrl.pause_all('probe')
+            drain()
+            live1 = not side.proc.has_terminated()
+            paused = bool(side.proc.paused or side.proc._pausing is not None)      # in effect, or pending while a step is in flight
+            tctrl.kill_all('probe')
+            drain()
+            out = {'ran': True, 'subscribed': sub0, 'live_before_pause': live0, 'live_after_pause': live1, 'paused': paused,
+                   'final': 'killing' if side.proc._killing is not None else side.proc.state.value}
+    except Exception as e:  # noqa
+        out = {'ran': True, 'error': repr(e)[:200]}
+    finally:
+        if side is not None:
+            side.close()
+    _PROBE[key] = out
+    return out
 
 
 def run_twin(case):
